@@ -14,7 +14,7 @@ use crate::dbh::*;
 use crate::model::*;
 use crate::util::*;
 use pocket_db::Store;
-use pocket_types::{Event, Id};
+use pocket_types::Id;
 use serde_json::json;
 use std::collections::{BTreeMap, BTreeSet};
 use std::io::Write;
@@ -92,8 +92,8 @@ pub fn child(args: &Args) {
         let res: String = match op["t"].as_str().unwrap_or("") {
             "s" => {
                 let b = unhex(op["b"].as_str().unwrap()).unwrap();
-                let e = unsafe { Event::delineate(&b).unwrap() };
-                match store.store_event(e) {
+                let e = pocket_types::OwnedEvent(b);
+                match store.store_event(&e) {
                     Ok(off) => format!("ok {off}"),
                     Err(e) => format!("err {:?}", classify_err(&e)).replace('\n', " "),
                 }
@@ -588,8 +588,16 @@ pub fn run(args: &Args) -> Report {
     }
     let _ = rep.extra.insert("kill_points".into(), json!(points_seen));
     let _ = rep.extra.insert("images_by_point".into(), json!(images.iter().map(|(k, v)| (k.clone(), json!(v))).collect::<BTreeMap<_, _>>()));
-    if points_seen.is_empty() && only.is_none() {
-        rep.inconclusive.push("no kill point was reached".into());
+    if only.is_none() && only_kill.is_none() {
+        for (k, v) in points_seen.iter() {
+            rep.count_n(&format!("killed_at:{k}"), *v);
+        }
+        for must in ["es.new.after_set_len", "es.new.after_open", "es.store.mid_copy", "es.store.after_padding", "es.store.after_set_len", "es.store.after_resize",
+                     "store.after_append", "store.after_index", "store.before_commit", "store.after_commit", "delete.after_tag", "remove.between_deindex",
+                     "remove_event.before_commit", "vanish.after_removal", "new.after_lmdb"] {
+            rep.require(&format!("killed_at:{must}"), &format!("no kill at {must}"));
+        }
+        rep.require("async_image:", "no asynchronous kill landed");
     }
     rep
 }
